@@ -23,7 +23,7 @@ pub const FLOORS: &[&str] = &[
 ];
 
 pub const ALPHABET: &[char] = &['+', '-', '#', 'x', 'o', 'b', '0', '1', '7', '9', 'a', 'f', 'g', '^', 'r', '_'];
-const CHUNK: u64 = 2048;
+const CHUNK: u64 = if cfg!(miri) { 64 } else { 2048 };
 
 fn count_strings(max_len: u32) -> u64 {
     (1..=max_len).map(|l| (ALPHABET.len() as u64).pow(l)).sum()
